@@ -5,8 +5,13 @@ Line-by-line model of `storage/repeater_storage.py` and of the data part of `sto
 
 * A **Python value** that reaches the storage is a `Val`: `None`, an `int` (Python `bool`s *are* ints:
   `True == 1`, so `True`/`False` are `int 1`/`int 0`), a `str` (list of code points), an address tuple
-  `(str, int)` or a `UUID` (`uuid n` = the `n`-th value handed out by the fresh-id oracle).  On this
-  domain Python's `==` (and dict-key equality) is structural equality.
+  `(str, int)` or a `UUID` (`uuid n` = the `n`-th value handed out by the fresh-id oracle); and the other
+  shapes in which a transport / caller can hand over a peer address: a tuple `(str, int, …)` of another
+  arity (`tupN`: the AF_INET6 peer `(host, port, flowinfo, scope_id)` of asyncio, 1- and 3-tuples), a
+  `list` `[str, int, …]` (`lstN`; never equal to a tuple) and a tuple `(str, str)` (`addrS`: the port as
+  text).  On this domain Python's `==` (and dict-key equality) is structural equality: a namedtuple or a
+  `str`/`int` subclass instance compares (and is printed) as the plain value, `tupN ip [p]` is never
+  built (the arity-2 tuple is `addr ip p`).
 * The **heap** `objs` holds every `Repeater` the storage ever created, in creation order; the index in
   this list *is* the object identity ("creation index").  `dict` is `RepeaterStorage.__repeaters`:
   an insertion-ordered Python `dict` from key to object.  Key and object id are kept apart because
@@ -27,6 +32,12 @@ inductive Val
   | str (s : List Nat)
   | addr (ip : List Nat) (port : Nat)
   | uuid (n : Nat)
+  /-- the tuple `(ip, *rest)` of arity ≠ 2 (`rest.length ≠ 1`; IPv6 peers: `[port, flowinfo, scope_id]`) -/
+  | tupN (ip : List Nat) (rest : List Nat)
+  /-- the list `[ip, *rest]` (any arity) -/
+  | lstN (ip : List Nat) (rest : List Nat)
+  /-- the tuple `(ip, port)` with the port given as a `str` -/
+  | addrS (ip : List Nat) (port : List Nat)
   deriving DecidableEq, Repr, Inhabited
 
 /-- the data members `Repeater.__init__` assigns (all of them but `logger` and the private dict) -/
@@ -66,6 +77,9 @@ def Val.truthy : Val → Bool
   | .str s => !s.isEmpty
   | .addr _ _ => true
   | .uuid _ => true
+  | .tupN _ _ => true      -- at least one element
+  | .lstN _ _ => true
+  | .addrS _ _ => true
 
 /-! ### Python `dict` (insertion ordered) -/
 
@@ -189,6 +203,8 @@ def Store.first (s : Store) (p : Rec → Bool) : Option Nat :=
 inductive AttrName
   | field (f : Field)
   | unknown
+  /-- not a `str` at all (`getattr(repeater, 1)`: `TypeError`) -/
+  | bad
   deriving DecidableEq, Repr, Inhabited
 
 /-- `match_attr(attr_name, match_value)`; `getattr` of an unknown name raises as soon as there is a
@@ -196,11 +212,15 @@ record to look at -/
 def Store.matchAttr (s : Store) (name : AttrName) (v : Val) : Res :=
   match name with
   | .unknown => if s.dict.isEmpty then .none else .err .attributeError
+  | .bad => if s.dict.isEmpty then .none else .err .typeError
   | .field f => Res.ofOption (s.first (fun r => r.get f == v))
 
 /-- `repeater.address_in[0]` -/
 def ipOf : Val → Except Err (List Nat)
   | .addr ip _ => .ok ip
+  | .tupN ip _ => .ok ip
+  | .lstN ip _ => .ok ip
+  | .addrS ip _ => .ok ip
   | .str [] => .error .indexError
   | .str (c :: _) => .ok [c]
   | _ => .error .typeError
@@ -250,6 +270,37 @@ def Store.matchIncoming (s : Store) (address : Val) (auto : Bool) (p : Patch) : 
       c.1.save (some c.2) p
     else s.save Option.none p
 
+/-! ### malformed patches (error path)
+
+`Repeater.patch` walks the entries of the patch in dict order; `hasattr(self, key)` raises `TypeError`
+for a key that is not a `str`, *after* the entries before it were applied.  A patch that is no mapping
+but has a non-zero `len` (a list of pairs, a `str`) raises `AttributeError` at `patch.items()`, before
+any entry.  Both are "the entries `pre` are applied, then `e` is raised"; `save` never reaches its
+dictionary update, `match_incoming` has already stored a record it created. -/
+
+/-- `rpt.patch(patch)` raising `e` after the entries `pre` -/
+def Store.patchBad (s : Store) (i : Nat) (pre : Patch) (e : Err) : Store × Res :=
+  match s.objs[i]? with
+  | Option.none => (s, .err .badRef)
+  | some r => ({ s with objs := s.objs.set i (applyPatch pre r) }, .err e)
+
+/-- `save(rpt, patch)` with such a patch (`len(patch)` is non-zero): `rpt.id` is evaluated first
+(`AttributeError` for `None`), then `rpt.patch(patch)` raises; `self.__repeaters.update` is not reached -/
+def Store.saveBad (s : Store) (rpt : Option Nat) (pre : Patch) (e : Err) : Store × Res :=
+  match rpt with
+  | Option.none => (s, .err .attributeError)
+  | some i => s.patchBad i pre e
+
+/-- `match_incoming(address, auto_create, patch)` with such a patch -/
+def Store.matchIncomingBad (s : Store) (address : Val) (auto : Bool) (pre : Patch) (e : Err) : Store × Res :=
+  match s.first (fun r => r.addressIn == address) with
+  | some i => s.saveBad (some i) pre e
+  | Option.none =>
+    if auto then
+      let c := s.create address
+      c.1.saveBad (some c.2) pre e
+    else s.saveBad Option.none pre e
+
 /-! ### operations of the histories of C20 -/
 
 inductive Op
@@ -263,7 +314,18 @@ inductive Op
   | deleteAttr (rpt : Nat) (key : String)
   /-- `rpt.patch(patch)` on an object obtained from the storage -/
   | patch (rpt : Nat) (patch : Patch)
+  /-- the three patching calls with a malformed patch: the entries `pre`, then the exception `e` -/
+  | matchIncomingBad (address : Val) (auto : Bool) (pre : Patch) (e : Err)
+  | saveBad (rpt : Option Nat) (pre : Patch) (e : Err)
+  | patchBad (rpt : Nat) (pre : Patch) (e : Err)
   deriving DecidableEq, Repr, Inhabited
+
+/-- the operation carries a malformed patch -/
+def Op.malformed : Op → Bool
+  | .matchIncomingBad .. => true
+  | .saveBad .. => true
+  | .patchBad .. => true
+  | _ => false
 
 def step (s : Store) : Op → Store × Res
   | .matchIncoming a auto p => s.matchIncoming a auto p
@@ -291,6 +353,9 @@ def step (s : Store) : Op → Store × Res
     match s.objs[i]? with
     | Option.none => (s, .err .badRef)
     | some r => ({ s with objs := s.objs.set i (applyPatch p r) }, .obj i)
+  | .matchIncomingBad a auto pre e => s.matchIncomingBad a auto pre e
+  | .saveBad rpt pre e => s.saveBad rpt pre e
+  | .patchBad i pre e => s.patchBad i pre e
 
 /-- run a history, collecting the results -/
 def runFrom (s : Store) : List Op → Store × List Res
@@ -320,6 +385,10 @@ def okOp (s : Store) : Op → Bool
   | .save (some i) p => okPatch s (some i) p
   | .save Option.none _ => true
   | .patch i p => okPatch s (some i) p
+  | .matchIncomingBad a _ pre _ => okPatch s (s.first (fun r => r.addressIn == a)) pre
+  | .saveBad (some i) pre _ => okPatch s (some i) pre
+  | .saveBad Option.none _ _ => true
+  | .patchBad i pre _ => okPatch s (some i) pre
   | _ => true
 
 /-- the preconditions hold at every operation of the history -/
